@@ -317,6 +317,17 @@ func (c *FnCtx) specCall(env *Env, x *ast.CallExpr) Val {
 				c.unsup(x, "fresh() outside postcondition")
 			}
 			return boolVal(and(app(">=", p.T, env.old.alloc), app(">", p.T, "0")))
+		case "sliceptr":
+			s := c.eval(env, x.Args[0])
+			return mathInt(app("sl_ptr", s.T))
+		case "freshSlice":
+			// freshSlice(s): the backing array of s was allocated during the call (shares no
+			// storage with anything that existed before), or s has no storage at all
+			s := c.eval(env, x.Args[0])
+			if env.old == nil {
+				c.unsup(x, "freshSlice() outside postcondition")
+			}
+			return boolVal(or(app(">=", app("sl_ptr", s.T), env.old.alloc), eq(app("sl_cap", s.T), "0")))
 		case "elem":
 			// elem(s, i): i-th element of slice s without bounds obligation
 			s := c.eval(env, x.Args[0])
